@@ -294,6 +294,17 @@ def _w_solve(case, ctx, rng):
     ctx.check(len(trace) == len(want_trace) and bool(np.array_equal(trace, want_trace, equal_nan=True)), op, "WRONG-TRACE",
               lambda: f"reported trace {trace.tolist()} vs start value + one value per completed epoch {want_trace.tolist()}")
     fs, fv, fw = tap.sample
+    # the function estimates themselves, recomputed from the definition sum_i w_i f(x_i, m_i) on the recorded sample
+    xs = Xd[tuple(np.asarray(fs).T)]
+    ctx.check(np.asarray(fv).size == xs.size and bool(np.array_equal(np.asarray(fv, dtype=float).reshape(-1), xs)), op, "WRONG-SAMPLE-VALUES",
+              "the values of the function sample are not the data at the sampled subscripts")
+    for val_, model_, _same in calls[:3]:
+        ms = denote(model_)[tuple(np.asarray(fs).T)]
+        with np.errstate(all="ignore"):
+            ref_ = float(np.sum(np.asarray(fw, dtype=float).reshape(-1) * np.asarray(fh(xs, ms), dtype=float)))
+        if np.isfinite(ref_) and np.isfinite(val_):
+            ctx.check(abs(val_ - ref_) <= 1e-9 * max(1.0, abs(ref_)), op, "WRONG-ESTIMATE",
+                      f"function estimate {val_!r} vs sum_i w_i f(x_i, m_i) on the same sample {ref_!r} ({len(xs)} samples)")
     fM = float(real_estimate(M, fs, fv, fw, fh, None, False, None))
     best = float(np.nanmin([f0] + epoch_vals))
     ctx.check(abs(fM - best) <= 1e-12 * max(1.0, abs(best)), op, "NOT-BEST-MODEL",
